@@ -966,7 +966,13 @@ impl StreamsState {
             }
         }
         if half == StreamHalf::Send {
-            self.send_streams -= 1;
+            // Remotely initiated streams are counted when the application accepts them; a send
+            // half that was used (e.g. reset) and freed before that was never counted
+            let counted = id.initiator() == self.side
+                || id.index() < self.next_reported_remote[Dir::Bi as usize];
+            if counted {
+                self.send_streams -= 1;
+            }
         }
     }
 
